@@ -11,7 +11,12 @@ open Rangers
 
 def ascii (s : String) : Bytes := s.toList.map (fun c => UInt8.ofNat c.toNat)
 
-def decNat (n : Nat) : Bytes := ascii (toString n)
+/-- Decimal digits, most significant first (`strconv.FormatUint`); `fuel` bounds the digit count. -/
+def decNatF : Nat → Nat → Bytes
+  | 0, _ => []
+  | f + 1, n => if n < 10 then [UInt8.ofNat (48 + n)] else decNatF f (n / 10) ++ [UInt8.ofNat (48 + n % 10)]
+
+def decNat (n : Nat) : Bytes := decNatF (n + 1) n
 
 def pad0 (w : Nat) (n : Nat) : Bytes :=
   let d := decNat n
@@ -161,15 +166,143 @@ def commaSep : List Bytes → Bytes
 
 def jsonArr (items : List Bytes) : Bytes := [91] ++ commaSep items ++ [93]
 
+/-! ## JSON strings as `encoding/json` writes and reads them -/
+
+/-- `utf8.DecodeRune` on a non-empty input: (rune, size); invalid encodings are (U+FFFD, 1). -/
+def utf8Dec : Bytes → Nat × Nat
+  | [] => (65533, 1)
+  | b0 :: rest =>
+    let c0 := b0.toNat
+    let cont (b : UInt8) : Bool := 128 ≤ b.toNat && b.toNat ≤ 191
+    if c0 < 128 then (c0, 1)
+    else if 194 ≤ c0 ∧ c0 ≤ 223 then
+      (match rest with
+       | b1 :: _ => if cont b1 then ((c0 % 32) * 64 + b1.toNat % 64, 2) else (65533, 1)
+       | _ => (65533, 1))
+    else if 224 ≤ c0 ∧ c0 ≤ 239 then
+      (match rest with
+       | b1 :: b2 :: _ =>
+         let lo := if c0 = 224 then 160 else 128
+         let hi := if c0 = 237 then 159 else 191
+         if lo ≤ b1.toNat ∧ b1.toNat ≤ hi ∧ cont b2 then
+           ((c0 % 16) * 4096 + (b1.toNat % 64) * 64 + b2.toNat % 64, 3)
+         else (65533, 1)
+       | _ => (65533, 1))
+    else if 240 ≤ c0 ∧ c0 ≤ 244 then
+      (match rest with
+       | b1 :: b2 :: b3 :: _ =>
+         let lo := if c0 = 240 then 144 else 128
+         let hi := if c0 = 244 then 143 else 191
+         if lo ≤ b1.toNat ∧ b1.toNat ≤ hi ∧ cont b2 ∧ cont b3 then
+           ((c0 % 8) * 262144 + (b1.toNat % 64) * 4096 + (b2.toNat % 64) * 64 + b3.toNat % 64, 4)
+         else (65533, 1)
+       | _ => (65533, 1))
+    else (65533, 1)
+
+/-- `utf8.EncodeRune` (surrogates and out-of-range runes become U+FFFD). -/
+def utf8Enc (r : Nat) : Bytes :=
+  if r < 128 then [UInt8.ofNat r]
+  else if r < 2048 then [UInt8.ofNat (192 + r / 64), UInt8.ofNat (128 + r % 64)]
+  else if (55296 ≤ r ∧ r < 57344) ∨ r > 1114111 then [239, 191, 189]
+  else if r < 65536 then [UInt8.ofNat (224 + r / 4096), UInt8.ofNat (128 + r / 64 % 64), UInt8.ofNat (128 + r % 64)]
+  else [UInt8.ofNat (240 + r / 262144), UInt8.ofNat (128 + r / 4096 % 64), UInt8.ofNat (128 + r / 64 % 64),
+        UInt8.ofNat (128 + r % 64)]
+
+def hexLow (n : Nat) : UInt8 := UInt8.ofNat (hexDigit n).toNat
+
+/-- `htmlSafeSet`: ASCII written verbatim. -/
+def htmlSafe (b : UInt8) : Bool := safeKeyByteRaw b
+where safeKeyByteRaw (b : UInt8) : Bool :=
+  32 ≤ b.toNat && b.toNat ≤ 127 && b.toNat != 34 && b.toNat != 92 && b.toNat != 60 && b.toNat != 62 && b.toNat != 38
+
+/-- body of `appendString(…, escapeHTML = true)`. -/
+def escapeStr : Nat → Bytes → Bytes
+  | 0, _ => []
+  | _ + 1, [] => []
+  | f + 1, c :: r =>
+    if c.toNat < 128 then
+      if htmlSafe c then c :: escapeStr f r
+      else if c = 92 ∨ c = 34 then 92 :: c :: escapeStr f r
+      else if c = 8 then 92 :: 98 :: escapeStr f r
+      else if c = 12 then 92 :: 102 :: escapeStr f r
+      else if c = 10 then 92 :: 110 :: escapeStr f r
+      else if c = 13 then 92 :: 114 :: escapeStr f r
+      else if c = 9 then 92 :: 116 :: escapeStr f r
+      else 92 :: 117 :: 48 :: 48 :: hexLow (c.toNat / 16) :: hexLow (c.toNat % 16) :: escapeStr f r
+    else
+      let (rune, size) := utf8Dec (c :: r)
+      if rune = 65533 ∧ size = 1 then [92, 117, 102, 102, 102, 100] ++ escapeStr f r
+      else if rune = 8232 ∨ rune = 8233 then [92, 117, 50, 48, 50, hexLow (rune % 16)] ++ escapeStr f ((c :: r).drop size)
+      else (c :: r).take size ++ escapeStr f ((c :: r).drop size)
+
+def jsonQuote (s : Bytes) : Bytes := [34] ++ escapeStr (s.length + 1) s ++ [34]
+
+def hexVal (c : UInt8) : Option Nat :=
+  if 48 ≤ c.toNat ∧ c.toNat ≤ 57 then some (c.toNat - 48)
+  else if 97 ≤ c.toNat ∧ c.toNat ≤ 102 then some (c.toNat - 87)
+  else if 65 ≤ c.toNat ∧ c.toNat ≤ 70 then some (c.toNat - 55)
+  else none
+
+def hex4 : Bytes → Option (Nat × Bytes)
+  | a :: b :: c :: d :: rest =>
+    match hexVal a, hexVal b, hexVal c, hexVal d with
+    | some w, some x, some y, some z => some (((w * 16 + x) * 16 + y) * 16 + z, rest)
+    | _, _, _, _ => none
+  | _ => none
+
+/-- A JSON string literal after its opening quote: decoded bytes and what follows the closing quote
+    (scanner + `unquoteBytes`); `none` = syntax error. -/
+def unquoteStr : Nat → Bytes → Option (Bytes × Bytes)
+  | 0, _ => none
+  | _ + 1, [] => none
+  | f + 1, c :: r =>
+    let cons (pre : Bytes) (rest : Bytes) : Option (Bytes × Bytes) :=
+      match unquoteStr f rest with
+      | none => none
+      | some (s, t) => some (pre ++ s, t)
+    if c = 34 then some ([], r)
+    else if c.toNat < 32 then none
+    else if c = 92 then
+      match r with
+      | [] => none
+      | e :: r2 =>
+        if e = 34 ∨ e = 92 ∨ e = 47 then cons [e] r2
+        else if e = 98 then cons [8] r2
+        else if e = 102 then cons [12] r2
+        else if e = 110 then cons [10] r2
+        else if e = 114 then cons [13] r2
+        else if e = 116 then cons [9] r2
+        else if e = 117 then
+          match hex4 r2 with
+          | none => none
+          | some (rr, r3) =>
+            if 55296 ≤ rr ∧ rr < 57344 then
+              match r3 with
+              | 92 :: 117 :: r4 =>
+                (match hex4 r4 with
+                 | some (rr1, r5) =>
+                   if rr < 56320 ∧ 56320 ≤ rr1 ∧ rr1 < 57344 then
+                     cons (utf8Enc ((rr - 55296) * 1024 + (rr1 - 56320) + 65536)) r5
+                   else cons [239, 191, 189] r3
+                 | none => cons [239, 191, 189] r3)
+              | _ => cons [239, 191, 189] r3
+            else cons (utf8Enc rr) r3
+        else none
+    else if c.toNat < 128 then cons [c] r
+    else
+      let (rune, size) := utf8Dec (c :: r)
+      cons (utf8Enc rune) ((c :: r).drop size)
+
 /-! ## `RequestIds map[string]uint64` -/
 
 /-- A key byte `encoding/json` writes and reads back verbatim (printable ASCII without `"` `\` `<` `>` `&`). -/
 def safeKeyByte (b : UInt8) : Bool :=
-  32 ≤ b.toNat && b.toNat ≤ 126 && b.toNat != 34 && b.toNat != 92 && b.toNat != 60 && b.toNat != 62 && b.toNat != 38
+  32 ≤ b.toNat && b.toNat ≤ 127 && b.toNat != 34 && b.toNat != 92 && b.toNat != 60 && b.toNat != 62 && b.toNat != 38
 
 inductive ReqIds where
   | nil
   | map (kvs : List (Bytes × Nat))      -- strictly sorted by key (byte-wise), as json.Marshal orders them
+  | mapEsc (kvs : List (Bytes × Nat))   -- same, but some key needs JSON escaping / was written with escapes
   | opaque (raw : Bytes)                -- bytes outside the canonical class: whatever encoding/json makes of them
   deriving Repr, DecidableEq, Inhabited
 
@@ -190,10 +323,15 @@ def encKVs : List (Bytes × Nat) → List Bytes
   | [] => []
   | (k, v) :: rest => (quote k ++ [58] ++ decNat v) :: encKVs rest
 
+def encKVsEsc : List (Bytes × Nat) → List Bytes
+  | [] => []
+  | (k, v) :: rest => (jsonQuote k ++ [58] ++ decNat v) :: encKVsEsc rest
+
 /-- `json.Marshal(h.RequestIds)`. -/
 def encReqIds : ReqIds → Bytes
   | .nil => jsonNull
   | .map kvs => [123] ++ commaSep (encKVs kvs) ++ [125]
+  | .mapEsc kvs => [123] ++ commaSep (encKVsEsc kvs) ++ [125]
   | .opaque raw => raw
 
 def parseKey : Bytes → Option (Bytes × Bytes)
@@ -244,6 +382,27 @@ def parseEntries : Nat → Bytes → List (Bytes × Nat) → Option (List (Bytes
         | _ => none
     | _ => none
 
+/-- entries with arbitrary JSON string keys (escapes, non-ASCII, invalid UTF-8 coerced). -/
+def parseEntriesEsc : Nat → Bytes → List (Bytes × Nat) → Option (List (Bytes × Nat))
+  | 0, _, _ => none
+  | f + 1, bs, acc =>
+    match bs with
+    | 34 :: r =>
+      match unquoteStr (r.length + 1) r with
+      | none => none
+      | some (k, r1) =>
+        match r1 with
+        | 58 :: r2 =>
+          match parseNum r2 with
+          | none => none
+          | some (v, r3) =>
+            match r3 with
+            | [125] => some (insertKV k v acc)
+            | 44 :: r4 => parseEntriesEsc f r4 (insertKV k v acc)
+            | _ => none
+        | _ => none
+    | _ => none
+
 /-- `json.Unmarshal(raw, &header.RequestIds)` with the error ignored, on the class of inputs
     modelled exactly (what `json.Marshal` of such a map emits, `null`, and the empty string). -/
 def decReqIds (raw : Bytes) : ReqIds :=
@@ -253,7 +412,115 @@ def decReqIds (raw : Bytes) : ReqIds :=
     | 123 :: rest =>
       match parseEntries (rest.length + 1) rest [] with
       | some kvs => .map kvs
-      | none => .opaque raw
+      | none =>
+        match parseEntriesEsc (rest.length + 1) rest [] with
+        | some kvs => .mapEsc kvs
+        | none => .opaque raw
     | _ => .opaque raw
+
+/-! ## `SubTransactions []UserData`: the canonical JSON class
+
+`pbToTransaction` runs `json.Unmarshal(raw, &subTransactions)`; the in-memory value is compared
+through `json.Marshal`. For bytes that are exactly what `json.Marshal` emits for some `[]UserData`
+(recognised by parsing them and re-encoding), that rendering is `raw` itself. -/
+
+structure UserData where
+  address : Nat
+  balance : Bytes
+  coin : List (Bytes × Bytes)
+  ft : List (Bytes × Bytes)
+  assets : Option (List (Bytes × Bytes))
+  deriving Repr, DecidableEq, Inhabited
+
+def insertSS (k v : Bytes) : List (Bytes × Bytes) → List (Bytes × Bytes)
+  | [] => [(k, v)]
+  | (k', v') :: rest =>
+    if bytesLt k k' then (k, v) :: (k', v') :: rest
+    else if k = k' then (k, v) :: rest
+    else (k', v') :: insertSS k v rest
+
+def encSMap (m : List (Bytes × Bytes)) : Bytes :=
+  [123] ++ commaSep (m.map (fun kv => jsonQuote kv.1 ++ [58] ++ jsonQuote kv.2)) ++ [125]
+
+def encUserData (u : UserData) : Bytes :=
+  ascii "{\"address\":" ++ decNat u.address ++
+  (if u.balance = [] then [] else ascii ",\"balance\":" ++ jsonQuote u.balance) ++
+  (if u.coin = [] then [] else ascii ",\"coin\":" ++ encSMap u.coin) ++
+  (if u.ft = [] then [] else ascii ",\"ft\":" ++ encSMap u.ft) ++
+  ascii ",\"Assets\":" ++ (match u.assets with | none => jsonNull | some m => encSMap m) ++ [125]
+
+/-- `json.Marshal([]UserData)` for a non-nil slice. -/
+def encSubTx (l : List UserData) : Bytes := [91] ++ commaSep (l.map encUserData) ++ [93]
+
+def expect (lit : Bytes) (bs : Bytes) : Option Bytes :=
+  if lit.isPrefixOf bs then some (bs.drop lit.length) else none
+
+def parseStr : Bytes → Option (Bytes × Bytes)
+  | 34 :: r => unquoteStr (r.length + 1) r
+  | _ => none
+
+def parseSMapEntries : Nat → Bytes → List (Bytes × Bytes) → Option (List (Bytes × Bytes) × Bytes)
+  | 0, _, _ => none
+  | f + 1, bs, acc =>
+    match parseStr bs with
+    | none => none
+    | some (k, r1) =>
+      match r1 with
+      | 58 :: r2 =>
+        match parseStr r2 with
+        | none => none
+        | some (v, r3) =>
+          match r3 with
+          | 125 :: r4 => some (insertSS k v acc, r4)
+          | 44 :: r4 => parseSMapEntries f r4 (insertSS k v acc)
+          | _ => none
+      | _ => none
+
+def parseSMap : Bytes → Option (List (Bytes × Bytes) × Bytes)
+  | 123 :: 125 :: r => some ([], r)
+  | 123 :: r => parseSMapEntries (r.length + 1) r []
+  | _ => none
+
+def parseUserData (bs : Bytes) : Option (UserData × Bytes) := do
+  let r0 ← expect (ascii "{\"address\":") bs
+  let (addr, r1) ← parseNum r0
+  let (bal, r2) ← (match expect (ascii ",\"balance\":") r1 with
+    | some r => parseStr r
+    | none => some ([], r1))
+  let (coin, r3) ← (match expect (ascii ",\"coin\":") r2 with
+    | some r => parseSMap r
+    | none => some ([], r2))
+  let (ft, r4) ← (match expect (ascii ",\"ft\":") r3 with
+    | some r => parseSMap r
+    | none => some ([], r3))
+  let r5 ← expect (ascii ",\"Assets\":") r4
+  let (assets, r6) ← (match expect jsonNull r5 with
+    | some r => some (none, r)
+    | none => (parseSMap r5).map (fun p => (some p.1, p.2)))
+  match r6 with
+  | 125 :: r7 => some (⟨addr, bal, coin, ft, assets⟩, r7)
+  | _ => none
+
+def parseUserDatas : Nat → Bytes → List UserData → Option (List UserData)
+  | 0, _, _ => none
+  | f + 1, bs, acc =>
+    match parseUserData bs with
+    | none => none
+    | some (u, r) =>
+      match r with
+      | [93] => some (acc ++ [u])
+      | 44 :: r2 => parseUserDatas f r2 (acc ++ [u])
+      | _ => none
+
+def parseSubTx : Bytes → Option (List UserData)
+  | [91, 93] => some []
+  | 91 :: r => parseUserDatas (r.length + 1) r []
+  | _ => none
+
+/-- `raw` is exactly `json.Marshal` of some `[]UserData` value. -/
+def canonSubTx (raw : Bytes) : Bool :=
+  match parseSubTx raw with
+  | some l => encSubTx l == raw
+  | none => false
 
 end Rangers.Json
